@@ -231,6 +231,10 @@ UNITS = {
             I(RAW, r'^impl RawTableInner$', 'new_uninitialized', impl='RawTableInner'),
             I(RAW, r'^impl RawTableInner$', 'fallible_with_capacity', impl='RawTableInner'),
             I(RAW, r'^impl RawTableInner$', 'prepare_resize', impl='RawTableInner'),
+            I(RAW, r'^impl RawTableInner$', 'num_ctrl_bytes', impl='RawTableInner'),
+            I(RAW, r'^impl RawTableInner$', 'allocation_info', impl='RawTableInner'),
+            I(RAW, r'^impl RawTableInner$', 'allocation_size_or_zero', impl='RawTableInner'),
+            I(RAW, r'^impl RawTableInner$', 'free_buckets', impl='RawTableInner'),
         ],
     ),
     # C07: HashSet's set algebra over an abstract set view
@@ -1030,6 +1034,35 @@ def alloc_rules(toks, i, out, hit):
                     T('None'), T('='), T('>', ''), T('{'), T('return'), T('Err'), T('(', '')] + F + [T(')', ''), T(';', ''), T('}'), T('}')])
         hit('R22_ok_or_else_question_to_match')
         return c + 2
+    # R37: `alloc.deallocate(P, L)` -> `do_dealloc(alloc, P, L, Ghost(*self), Ghost(table_layout))`: the ghost arguments
+    #      name the table and element layout so that "same block, same layout as allocated" is the call's obligation
+    if t.text == 'alloc' and seq(i + 1, '.', 'deallocate', '('):
+        c = extract._find_close(toks, i + 3)
+        args = extract.rewrite(toks[i + 4:c], set(), _HITS, alloc_rules)
+        out.extend([T('do_dealloc', t.gap), T('(', ''), T('alloc', ''), T(',', '')] + args + [T(',', ''), T('Ghost'), T('(', ''), T('*', ''), T('self', ''), T(')', ''),
+                    T(',', ''), T('Ghost'), T('(', ''), T('table_layout', ''), T(')', ''), T(')', '')])
+        hit('R37_deallocate_with_ghost_context')
+        return c + 1
+    # R15f: `P.as_ptr().sub(N)` / `P.sub(N)` on the control pointer -> `ptr_sub(&P, N)`
+    if t.kind == 'id' and t.text == 'sub' and out and out[-1].text == '.' and i + 1 < n and toks[i + 1].text == '(':
+        jj = len(out) - 1
+        kk = jj - 1
+        while kk >= 0 and (out[kk].kind == 'id' or out[kk].text == '.'):
+            kk -= 1
+        recv = out[kk + 1:jj]
+        if not recv or recv[0].kind != 'id':
+            raise ExtractError('R15f: unsupported receiver for pointer sub')
+        close, args = _args_until_close(toks, i + 1)
+        args = extract.rewrite(args, set(), _HITS, alloc_rules)
+        del out[kk + 1:]
+        out.extend([T('ptr_sub', recv[0].gap), T('(', ''), T('&', '')])
+        recv[0].gap = ''
+        out.extend(recv)
+        out.append(T(',', ''))
+        out.extend(args)
+        out.append(T(')', ''))
+        hit('R15f_pointer_sub_to_block_start')
+        return close + 1
     return iter_rules(toks, i, out, hit)
 
 
